@@ -675,7 +675,10 @@ func (t *FnTrans) instrWrites(in ssa.Instruction, l *loopInfo) {
 		}
 	}
 	switch in.(type) {
-	case *ssa.Alloc, *ssa.MakeSlice, *ssa.MakeMap, *ssa.MakeInterface, *ssa.MakeClosure, *ssa.MakeChan, *ssa.Convert:
+	case *ssa.MakeChan:
+		t.w(l, "CH.closed", "(Array Int Bool)")
+		t.wAlloc(l)
+	case *ssa.Alloc, *ssa.MakeSlice, *ssa.MakeMap, *ssa.MakeInterface, *ssa.MakeClosure, *ssa.Convert:
 		// these write only into the object they allocate, which did not exist before the loop
 		return
 	}
